@@ -6,6 +6,7 @@ the rules look at:
 
   (a) a parameter whose *default* is a mutable object (``buf=bytearray()``, ``acc=[]``): the object is created once, when the ``def`` is
       executed, and every call that omits the argument works on the same one;
+  (a') a parameter whose default reads the clock (``start=time.time()``): the time the module was imported, not the time of the call;
   (b) a module-level accumulator (``_EARLY = bytearray()``) that a function extends in place.
 
 The rule reports such an object when a function in the scope of the property *mutates it in place* (``+=``, ``.extend``, ``.append``,
@@ -36,6 +37,14 @@ def _is_accumulator(e):
         f = e.func
         nm = f.id if isinstance(f, ast.Name) else ("%s.%s" % (f.value.id, f.attr) if isinstance(f, ast.Attribute) and isinstance(f.value, ast.Name) else None)
         return nm in ACCUMULATORS
+    return False
+
+
+def _is_clock(e):
+    for n in ast.walk(e):
+        if isinstance(n, ast.Call) and isinstance(n.func, ast.Attribute) and isinstance(n.func.value, ast.Name) and n.func.value.id in ("time", "datetime") \
+                and n.func.attr in ("time", "monotonic", "perf_counter", "now", "utcnow", "time_ns", "monotonic_ns"):
+            return True
     return False
 
 
@@ -143,6 +152,13 @@ def fresh_rule(ctx, R, rule="FRESH"):
             if isinstance(d, ast.Constant):
                 continue
             count += 1
+            if _is_clock(d):
+                # (a') a default computed from the clock is the time the module was imported, not the time of the call
+                omit, why = _can_omit(ctx, f, p)
+                read = any(isinstance(n, ast.Name) and n.id == p and isinstance(n.ctx, ast.Load) for n in walk_own(f.node))
+                R.check(not (omit and read), rule, "%s|default|%s" % (f.qualname, p), "the clock default of `%s` is never used" % p,
+                        "`%s` defaults to `%s`, evaluated once when the function is defined: every call that omits the argument (%s) measures from the time the module was imported" % (p, norm_stmt(d), why), f.loc())
+                continue
             if not _is_accumulator(d):
                 continue
             sites = _inplace_sites(ctx, f, p, ("param",))
